@@ -949,6 +949,28 @@ def f_fill_array_plus3(deck, rng):
     return f_fill_array_len(deck, rng, delta=3)
 
 
+def f_fill_array_surplus_tr(deck, rng):
+    '''Surplus array entries that happen to be a transformation: one entry
+    naming an existing TR card, or 6 / 9 / 12 entries of a rotation.'''
+    out = []
+    for k in _array_cells(deck):
+        for how in ('trnum', 'matrix'):
+            d = _clone(deck)
+            cell = d['cells'][k]
+            m = re.search(r'fill=((?:-?\d+:-?\d+ )+)([-0-9r ]*?)( imp|$)', cell['opts'])
+            ranges, array = m.group(1), m.group(2).split()
+            if how == 'trnum':
+                if not d['trs']:
+                    continue
+                extra = [str(rng.choice(d['trs'])['id'])]
+            else:
+                extra = [num(v) for v in _twelve(rng)[:rng.choice([6, 9, 12])]]
+            _set_opt(cell, r'fill=((?:-?\d+:-?\d+ )+)([-0-9r ]*?)(?= imp|$)',
+                     'fill=' + ranges + ' '.join(array + extra))
+            out.append((d, f'cell {cell["id"]} array followed by {" ".join(extra)}'))
+    return out
+
+
 def f_imp_unequal(deck, rng):
     '''IMP cards of unequal lengths.'''
     d = _clone(deck)
@@ -1058,6 +1080,7 @@ FAULTS = {
     'tr_card_arity': (f_tr_card_arity, ['tr']),
     'fill_array_len': (f_fill_array_len, ['lat']),
     'fill_array_plus3': (f_fill_array_plus3, ['lat']),
+    'fill_array_surplus_tr': (f_fill_array_surplus_tr, ['lat', 'tr']),
     'imp_unequal': (f_imp_unequal, []),
     'imp_short': (f_imp_short, []),
     'mixed_fractions': (f_mixed_fractions, ['mats']),
